@@ -164,11 +164,22 @@ def run(ctx):
     ctx.cov["in_known_finding_class"] = nclass
     ctx.cov["failures_attributed_to_known_findings"] = len(in_class)
     corr = common.diff_lines(ops, impl, model)
+    # merged streams as the parser builds them: events with several RRULEs and RDATE lines (the rule streams are muxed, cloned
+    # and muxed again with the dates), the first 60 occurrences against the sorted duplicate-free union of the single rules'
+    # reference expansions
+    from . import p_algebra
+    an, afails, ahist, aocc, ast = p_algebra.run(ctx, exe, rng, 2500 if ctx.tier == "thorough" else 350, False)
+    alg = {}
+    for op, why in afails:
+        alg[len(alg)] = op
+        fails.append((-len(alg), why))
     ctx.cov.update({
-        "evaluations": len(ops),
+        "calendars_through_whole_parser": an, "occurrences_compared_with_union": aocc, "calendar_shapes": ahist,
+        "evaluations": len(ops) + an,
         "distinct_nontrivial": len({o for o, (t, s) in zip(ops, cases) if sum(len(l) for l in p_strm.leaves(t)) >= 2}),
         "traces_validated_against_impl": len(ops) - len(corr),
-        "rule": "mux trees over 1..6 sources (20% of the sources nested muxes, depth <= 3); sources are sorted event lists "
+        "rule": "(a) calendars with 0-3 RRULEs and RDATE lines through the whole parser against the sorted, duplicate-free union "
+                "of the reference expansions; (b) mux trees over 1..6 sources (20% of the sources nested muxes, depth <= 3); sources are sorted event lists "
                 "of 0..15 events drawn from a small pool of instants (ties, identical (uid, start) across sources, all-day / "
                 "all-second / ms instants of one day), 80% duplicate-free per source; scripts of peek/pop calls slightly "
                 "longer than the stream. non-trivial = at least 2 events in total; distinct = distinct op lines",
@@ -185,8 +196,13 @@ def run(ctx):
         ctx.violation("correspondence", "harness ended with %s: %s" % (st, err[-600:]), {"stderr": err}, found_input=False)
     if fails:
         i, why = fails[0]
-        ctx.violation("property", why, {"op": ops[i], "impl": impl[i] if i < len(impl) else None, "model": model[i],
-                                        "failures_total": len(fails)})
+        if i < 0:
+            aop = alg[-i - 1]
+            aout, _, _ = ctx.impl(exe, [aop])
+            ctx.violation("property", why, {"op": aop, "impl": aout[0] if aout else None, "failures_total": len(fails)})
+        else:
+            ctx.violation("property", why, {"op": ops[i], "impl": impl[i] if i < len(impl) else None, "model": model[i],
+                                            "failures_total": len(fails)})
     elif corr:
         i, op, a, b = corr[0]
         ctx.violation("correspondence", "implementation and model differ on %d scripts, order/multiset/peek conditions hold; first: %s"
@@ -201,5 +217,5 @@ def replay(ctx, rep):
         print("replay names no input: %s" % rep.get("what"))
         return 1
     out, st, _ = ctx.impl(exe, [op])
-    print("op: %s\nimpl: %s\nmodel: %s\nwas: %s" % (op, out[0] if out else st, ctx.model([op])[0], rep.get("what")))
+    print("op: %s\nimpl: %s\nmodel: %s\nwas: %s" % (op[:300], out[0] if out else st, "-" if op.startswith("p.occ") else ctx.model([op])[0], rep.get("what")))
     return 1 if (out and out[0] == rep["data"].get("impl")) else 0
